@@ -364,10 +364,10 @@ func init() {
 		},
 		Covers: map[string][]string{"VH_C14_step": {"end", "create-ok", "create-exists", "delete-ok"}, "VH_C14_recreate": {"end"}, "VH_C14_race": {"end", "one-wins"}, "VH_C14_diff": {"end", "start", "stop"}, "VH_C14_reconcile": {"end", "start", "stop"}, "VH_C14_snapshot": {"end", "stale-name"}, "VH_C14_names": {"end"}},
 		Bounds: map[string]string{
-			"quick":    "catalogue over 3 names with arbitrary membership, ids drawn from (10000, seq] for seq in {absent, 10003, 10007}, arbitrary record versions; one create/delete/list step; delete+recreate; two racing creates (of one name, and of two different names) with every interleaving of their store accesses; diffTables over 2 records x 1 running shard and 1 record x 2 running shards (ids and recover-ids 64-bit symbolic) under all map orders; the whole Manager.reconcile (engine only) over a catalogue of 0..2 tables with table id and optional recovery id (also recovery id alone) from 10001..10004 and every subset of 10001..10004 running: exactly the missing catalogued ids are started under their own id, exactly the uncatalogued running ones stopped; a store replica holding an arbitrary stale catalogue over 2 names caught up by a snapshot of an arbitrary source catalogue over the same names: listing and lookups on it equal the source's",
+			"quick":    "catalogue over 3 names with arbitrary membership, ids drawn from (10000, seq] for seq in {absent, 10003, 10007}, arbitrary record versions; one create/delete/list step; delete+recreate; two racing creates (of one name, and of two different names) with every interleaving of their store accesses; diffTables over 2 records x 1 running shard and 1 record x 2 running shards (ids and recover-ids 64-bit symbolic) under all map orders; the whole Manager.reconcile (engine only) over a catalogue of 0..2 tables with table id and optional recovery id (also recovery id alone) from 10001..10004 and every subset of 10001..10004 running: exactly the missing catalogued ids are started under their own id, exactly the uncatalogued running ones stopped; a store replica holding an arbitrary stale catalogue over 2 names caught up by a snapshot of an arbitrary source catalogue over the same names: listing and lookups on it equal the source's; creation under each of the names \"a/b\", \"a/lease\", \"sys/idseq\" (nested, another table's lease key, the id-sequence key) on an arbitrary catalogue: catalogued like any other table or refused without consuming an id or writing a record, listing exact",
 			"thorough": "diffTables 2 x 2",
 		},
-		Outside:     "emptiness of a (re)created table's data (the state-machine directory is derived from name and id; exercising FSM.Open needs the file-system model: see C04) and isolation between shards; names containing '/'; actual shard start/stop inside dragonboat; Restore's id switch",
+		Outside:     "emptiness of a (re)created table's data (the state-machine directory is derived from name and id; exercising FSM.Open needs the file-system model: see C04) and isolation between shards; names odd in other ways than containing '/' (empty, pattern characters); actual shard start/stop inside dragonboat; Restore's id switch",
 		Assumptions: []string{"M2 with the real LFSM (C13); M4 json round trip of table.Table", "StartOnDiskReplica/HasNodeInfo only record their arguments"},
 	}
 	props["C16"] = &Property{
